@@ -8,6 +8,8 @@ subset raises CannotDecide, which the caller turns into an ANALYSIS-ERROR.
 from __future__ import annotations
 
 import ast
+import os
+import time
 import copy
 import itertools
 from fractions import Fraction as _Fraction
@@ -59,6 +61,10 @@ class Chooser:
         return v
 
 
+STEP_BUDGET = int(os.environ.get("MINGUS_STATIC_STEP_BUDGET", "3000000"))
+TIME_BUDGET = int(os.environ.get("MINGUS_STATIC_TIME_BUDGET", "240"))
+
+
 class Path:
     def __init__(self, trace, kind, value, interp):
         self.trace = trace  # [(label, choice)]
@@ -77,7 +83,13 @@ def explore(make_interp, run, max_paths=4000):
     """run(interp) is executed once per decision prefix; returns list of Path."""
     paths = []
     stack = [[]]
+    t0 = time.monotonic()
     while stack:
+        if time.monotonic() - t0 > TIME_BUDGET:
+            from collections import Counter
+            top = Counter(lab for p_ in paths[-200:] for lab, _v in p_.trace).most_common(3)
+            raise CannotDecide("the exploration did not finish within %d seconds (%d paths so far); most frequent case splits: %s" % (
+                TIME_BUDGET, len(paths), "; ".join("%s (x%d)" % (short(l, 70), c) for l, c in top)))
         prefix = stack.pop()
         ch = Chooser(prefix)
         it = make_interp(ch)
@@ -220,7 +232,11 @@ class Interp:
         if not self.unfolded or not isinstance(v, AbsStr):
             return v
         changed = True
+        rounds = 0
         while changed:
+            rounds += 1
+            if rounds > 200:
+                raise CannotDecide("unfolding of %r does not come to an end" % (v,))
             changed = False
             atoms = []
             for a in v.atoms:
@@ -439,6 +455,10 @@ class Interp:
 
     # ------------------------------------------------------------------ eval
     def eval(self, node, frame):
+        n = self.__dict__.get("_evals", 0) + 1
+        self.__dict__["_evals"] = n
+        if n % 5000 == 0 and time.monotonic() - self.__dict__.setdefault("_t0", time.monotonic()) > TIME_BUDGET:
+            raise CannotDecide("the evaluation did not finish within %d seconds (at %s)" % (TIME_BUDGET, short(node)))
         m = getattr(self, "e_" + type(node).__name__, None)
         if m is None:
             raise CannotDecide("expression %s not supported: %s" % (type(node).__name__, short(node)))
@@ -1207,6 +1227,10 @@ class Interp:
                         return self.eval(c.attrs[name], Frame(None, {}, mod=c.module))
             if self.attr_hook:
                 return self.attr_hook(self, v, name, node)
+            if v.cls is not None and not name.startswith("__"):
+                # an object of a known class that has no such attribute, method or class attribute: hasattr() says False
+                # for it, and reading it raises (try / except AttributeError is the other way of asking)
+                raise RaiseEx("AttributeError", node)
             return Opaque("attr:%s.%s" % (v.name, name), [v])
         if isinstance(v, AClass):
             m = self.repo.find_method(v.ci, name)
@@ -1496,7 +1520,57 @@ class Interp:
             raise RaiseEx("AttributeError", node)
         raise CannotDecide("method %s on %r" % (name, recv))
 
+    def _find_in_absstr(self, recv, pat, last):
+        """Position (int or Lin) of the first / last occurrence of the literal ``pat`` in an abstract string, or -1; the
+        abstract pieces must be known not to contain any character of the pattern (else CannotDecide)."""
+        v = self.norm_str(recv if isinstance(recv, AbsStr) else AbsStr([recv]))
+        pset = set(pat)
+        pos = Lin({}, 0)
+        found = None
+        for a in v.atoms:
+            if isinstance(a, str):
+                j = a.rfind(pat) if last else a.find(pat)
+                if j != -1 and (found is None or last):
+                    found = pos + j
+                    if not last:
+                        break
+                pos = pos + len(a)
+                continue
+            if isinstance(a, Ch):
+                r = a.contains_only(sorted(pset))
+                if r is not False:
+                    if r is True and len(pat) == 1:
+                        if found is None or last:
+                            found = pos
+                        if not last:
+                            break
+                        pos = pos + 1
+                        continue
+                    raise CannotDecide("find(%r) over %r" % (pat, a))
+                pos = pos + 1
+                continue
+            if isinstance(a, Run):
+                for c in a.classes:
+                    if c.contains_only(sorted(pset)) is not False:
+                        raise CannotDecide("find(%r) may match inside %r" % (pat, a))
+                    pos = pos + Lin.of(a.count[c.name])
+                continue
+            if _is_rep(a):
+                if set(a.lit) & pset:
+                    raise CannotDecide("find(%r) may match inside %r" % (pat, a))
+                pos = pos + a.count.scale(len(a.lit))
+                continue
+            raise CannotDecide("find(%r) over %r" % (pat, a))
+        if found is None:
+            return -1
+        return int(found.const) if found.is_const() else _norm_lin(found)
+
     def str_method(self, recv, name, args, node):
+        if name in ("find", "rfind", "index", "rindex") and len(args) == 1 and isinstance(args[0], str) and args[0]:
+            r = self._find_in_absstr(recv, args[0], last=name.startswith("r"))
+            if r == -1 and isinstance(r, int) and name.endswith("index"):
+                raise RaiseEx("ValueError", node)
+            return r
         if isinstance(recv, Ch) and name in ("lower", "upper", "islower", "isupper") and recv.members is not None:
             if name in ("islower", "isupper"):
                 vals = {getattr(c, name)() for c in recv.members}
@@ -2081,6 +2155,13 @@ class Interp:
             self.exec(st, frame)
 
     def exec(self, st, frame):
+        # a budget per evaluation: an analysis that does not come to an end says so (exit 2), it does not hang
+        n = self.__dict__.get("_steps", 0) + 1
+        self.__dict__["_steps"] = n
+        if n > STEP_BUDGET:
+            raise CannotDecide("the evaluation did not finish within %d statements (at %s)" % (STEP_BUDGET, short(st)))
+        if n % 2000 == 0 and time.monotonic() - self.__dict__.setdefault("_t0", time.monotonic()) > TIME_BUDGET:
+            raise CannotDecide("the evaluation did not finish within %d seconds (at %s)" % (TIME_BUDGET, short(st)))
         m = getattr(self, "s_" + type(st).__name__, None)
         if m is None:
             raise CannotDecide("statement %s not supported: %s" % (type(st).__name__, short(st)))
